@@ -14,7 +14,9 @@ EXPLANATION = (
     "properties, and every repetition in the builder templates ranges over them; (T3) builder fields are Result<scoped type, "
     "String>, each setter is value.try_into().map_err(format!(<message naming the property>)), TryFrom<builder> is "
     "Ok(Self { p: value.p?, .. }), From<struct> is Self { p: Ok(value.p), .. }, scoped types and the custom default path use "
-    "`super`."
+    "`super`; "
+    "(T1, path-sensitive) `default` is pushed on every path of a selector arm that answers DefaultFunction::Default, and both "
+    "translations of the classification have one unguarded arm per variant."
 )
 ASSUMPTIONS = ["TryInto conversions chosen by the caller"]
 
